@@ -16,11 +16,12 @@ TRUSTED_BASE = ["harness resets the named default tables to weight 1 through the
                 "reports them; the Lean side checks the report against the regenerated tables",
                 "encoding/json round trip of a Table is the identity on values (checked by correspondence only)",
                 "Go memory model / scheduler: the heap model's steps are atomic; data races are looked for with -race only",
-                "ASCII restriction: strings.ToUpper and range-over-string are modelled on ASCII"]
-ASSUMPTIONS = ["coding sequences are ASCII text (any ASCII character: letters of either case, digits, blanks, line breaks, "
-               "punctuation). A sequence with a non-ASCII character is OUTSIDE the judged domain (class ood:non-ascii, "
-               "correspondence only): there the code's byte-length test currentCodon.Len()==3 loses the frame for the rest of "
-               "the sequence (\"\u00e9\u00e9\u00e9ATG\" gives ATG=0), reported to the coordinator as a candidate finding",
+                "strings.ToUpper is modelled on ASCII only (see ASSUMPTIONS); range-over-string = one model Char per rune"]
+ASSUMPTIONS = ["coding sequences are valid Unicode text (any characters: letters of either case, digits, blanks, line breaks, "
+               "punctuation, non-ASCII letters); invalid UTF-8 cannot be sent over the line protocol and is not exercised",
+               "strings.ToUpper outside ASCII: the model upper-cases ASCII only (Char.toUpper). Assumed of Go's function: it maps "
+               "rune by rune (keeps the number of letters, so the frame) and maps no non-ASCII letter to A, C, G or T (U+0131 and "
+               "U+017F go to I and S, nothing goes to ACGT); then every table over ACGT triplets gets the same weights under both",
                "weights and their sums stay below 2^53 (sequences of at most 10^5 letters)",
                "int(NaN) is platform-defined in Go: from the first compromise step with an amino acid of total weight 0 onwards a "
                "history is compared up to the code of the tables only (class suffix /nan)",
@@ -78,7 +79,7 @@ def all_histories(n, ids, strings, cuts, prefix=()):
 
 def randseq(r, n, exotic):
     if exotic:
-        alpha = "ACGT" * 8 + "NRYKMSWBDHVU" + "XZ-*." + "acgtn" + " \n\r\t0123456789>;=/"
+        alpha = "ACGT" * 8 + "NRYKMSWBDHVU" + "XZ-*." + "acgtn" + " \n\r\t0123456789>;=/" + "\u00e9\u00c9\u65e5\u0131\u017f\u03a9\U0001d538"
     else:
         alpha = "ACGT"
     return randcase(r, randword(r, alpha, n)) if r.random() < 0.6 else randword(r, alpha, n)
@@ -214,9 +215,11 @@ def cases(seed, tier):
         d = r.choice(ALL_IDS)
         yield ["hist", str(d), "g:%d" % d, "w:0:%s" % randseq(r, r.randint(1000, 5000), True),
                "w:1:%s" % coding(r, r.randint(1, 3000), True), "o:2"]
-    # outside the domain (not judged): non-ASCII characters
-    for w in ["\u00e9\u00e9\u00e9ATG", "AA\u00e9ATGATG", "A\u00e9ATGATG", "ATG\u65e5ATGATG", "atg\u00fcGCTgct", "ATGATG\u00e9"]:
-        yield ["hist", "1", "g:1", "w:0:" + w]
+    # non-ASCII letters (1 to 4 bytes each) in every frame position: framed by letters since /repo 053f18d
+    for w in ["A\u00e9ATGATG", "ATG\u65e5ATGATG", "atg\u00fcGCTgct", "ATGATG\u00e9", "\U0001d538\U0001d538ATGgct", "\u0131TG\u017fTGATG",
+              "\u00e9" * 7 + "ATG", "AT\u00e9GATGAT" * 50]:
+        for d in (1, 11):
+            yield ["hist", str(d), "g:%d" % d, "w:0:" + w, "w:1:" + w[::-1]]
     yield from conc_cases(r, 20 if tier == "quick" else 100)
 
 
